@@ -31,6 +31,30 @@ def one(C, drv, L, np, n, rp_extra=None):
     o = drv.ask(f'n.weighted {enc_bits(float(w) for w in ws)} {enc_bits(float(v) for v in vals)}')
     if int(o) != fbits(float(out)) and not (bits2f(o) == float(out)):
         C.issue('weighted-mismatch', 'correspondence', rp, model=bits2f(o), real=float(out))
+    # components that return (views of) their argument: the caller's array must come back untouched and every
+    # component must see the original argument
+    xv = np.array([[C.rng.uniform(-2, 2)] for _ in range(C.rng.randint(1, 3))])
+    xv0 = np.array(xv, copy=True)
+    seen_args = []
+    views = [lambda z: (seen_args.append(np.array(z, copy=True)), z[0])[1], lambda z: (seen_args.append(np.array(z, copy=True)), z.ravel())[1],
+             lambda z: (seen_args.append(np.array(z, copy=True)), z)[1], lambda z: (seen_args.append(np.array(z, copy=True)), float(np.sum(z)))[1]]
+    vk = C.rng.randrange(len(views))          # all components of one function return the same kind of value
+    comps = [views[vk] for _ in range(n)]
+    fv = L['WeightedFunction'](functions=[(lambda g: (lambda z: g(z)))(g) for g in comps], weights=list(ws))
+    try:
+        outv = fv.pointer(xv)
+        if not np.array_equal(xv, xv0):
+            C.issue('argument-modified-or-replaced', 'oracle', dict(how='weighted-view', ws=ws), before=xv0.tolist(), after=xv.tolist())
+        elif any(not np.array_equal(a, xv0) for a in seen_args):
+            C.issue('component-saw-modified-argument', 'oracle', dict(how='weighted-view', ws=ws))
+        else:
+            wantv = 0
+            for w, g in zip(ws, comps):
+                wantv = wantv + w * g(np.array(xv0, copy=True))
+            if not np.array_equal(np.asarray(outv, dtype=float), np.asarray(wantv, dtype=float), equal_nan=True):
+                C.issue('not-the-weighted-sum', 'oracle', dict(how='weighted-view', ws=ws), got=np.asarray(outv).tolist(), reference=np.asarray(wantv).tolist())
+    except Exception as ex:
+        C.issue('weighted-raised', 'oracle', dict(how='weighted-view', ws=ws), error=type(ex).__name__ + ': ' + str(ex)[:80])
     # a second call on the same array object after an in-place change, and a repeated call on equal input:
     # the value must follow the argument and every component must be evaluated again
     calls.clear()
